@@ -47,6 +47,9 @@ Apply(m, o) ==
     \* "Burst": rounds of a FRESH in-memory storage on which several clients perform the first store of a type at the same
     \* moment, then every stored id is loaded and listed; by linearisability every acknowledged store is there: "ok"
     [] o.op = "Burst" -> R("ok", Absent, {}, m)
+    \* "Churn": rounds in which a store and a remove of one entry overlap while readers list; when all have returned, the
+    \* listing and a load agree about the entry (the map is in the state left by whichever write was linearised last): "ok"
+    [] o.op = "Churn" -> R("ok", Absent, {}, m)
 
 IdsE == Ids \cup {""}
 Ops == [op : {"Store"}, t : AllTypes, id : IdsE, v : Vals] \cup [op : {"Load", "Remove"}, t : AllTypes, id : IdsE, v : {Absent}]
@@ -63,5 +66,5 @@ AllowedC19(m, o, res, val, ids, m2) ==
         ELSE (res = "ok" /\ m2 = [m EXCEPT ![<<o.t, o.id>>] = o.v]))                \* other types with the same id are untouched
   /\ (o.op = "Remove" /\ o.t \in Known /\ o.id # "" => m2 = [m EXCEPT ![<<o.t, o.id>>] = Absent])
   /\ (o.op \in {"Load", "List"} => m2 = m)
-  /\ (o.op = "Burst" => res = "ok")                                              \* no acknowledged store may be missing
+  /\ (o.op \in {"Burst", "Churn"} => res = "ok")                                              \* no acknowledged store may be missing
 =============================================================================
